@@ -118,8 +118,17 @@ pub fn generate(seed: u64, tier: Tier) -> Case {
             .map(|i| project.full_item_path(i))
             .collect();
         let mut perms: Vec<Vec<String>> = vec![];
-        permutations(&mut names.clone(), 0, &mut perms);
-        params.notes.push(format!("exhaustive:{}_items:{}_orders", names.len(), perms.len()));
+        if names.len() <= 6 {
+            permutations(&mut names.clone(), 0, &mut perms);
+            params.notes.push(format!("exhaustive:{}_items:{}_orders", names.len(), perms.len()));
+        } else {
+            // More than 6! orders would not fit a case's time budget: sample instead.
+            for _ in 0..300 {
+                let mut order = names.clone();
+                rng.shuffle(&mut order);
+                perms.push(order);
+            }
+        }
         perms
             .into_iter()
             .map(|order| crate::run::BuildSpec {
